@@ -115,6 +115,14 @@ check("C15", "controller",
       "must be the current content of the declared secret or the default certificate; after rotations the running HAProxy must serve what the files hold.",
       CTL_NOTE, "DESIGN.md 6 C15")
 
+check("C18", "authfail",
+      "TLA+ spec AuthFail.tla (guard coverage of deny / auth-intercept rules) + MapLookup.tla; TLC enumerates the product of auth-url / oauth / "
+      "placement / path type / Lua / auth-proxy range values; the real pipeline writes each configuration; TLC judges every request (TraceAuth.tla)",
+      "Exhaustive enumerated-input contract validation over 1152 annotation combinations x 7 requests: a request the documented routing gives to the "
+      "protected path must be covered by a deny, or by an auth-intercept followed by deny/redirect-unless-successful, in the frontend or in the "
+      "backend section; the protected path shares its backend with an unprotected one.",
+      ENUM_NOTE + "ACL semantics are transcribed; auth-request.lua is not executed.", "DESIGN.md 6 C18")
+
 NOT_BUILT = "check not built yet (planned, DESIGN.md section 6); no claim made until the check exists"
 
 
